@@ -449,3 +449,90 @@ Definition monitor (c : case) : bool :=
 (* Evaluation helpers for the generated case files. *)
 Definition check_case (c : case) : nat :=   (* 0 = fine, 1 = monitor fails, 2 = model rejects *)
   if monitor c then (if accepts_any c then 0%nat else 2%nat) else 1%nat.
+
+(* ---- multi.ClientForAddress: scoping a multi client to one configured node ----
+
+   func (m multi) ClientForAddress(addr string) Client:
+     addr == ""                      -> m
+     first primary  cl with cl.Address() == addr -> multi{clients: [cl], fallbacks: m.fallbacks}
+     first fallback cl with cl.Address() == addr -> multi{clients: [cl], fallbacks: nil}
+     otherwise                       -> m
+   The configured clients are lazy wrappers (newBeaconClient): lazy.Address() is "" until the
+   underlying client has been created by a first call, so a configured address matches only a node
+   whose client exists ([init]); all configured addresses are distinct and non-empty. *)
+
+Inductive addr := ANone | AP (i : nat) | AF (j : nat) | AUnknown.
+
+Definition unscoped (np nf : nat) : list nref * list nref := (map P (seq 0 np), map F (seq 0 nf)).
+
+Definition scope (np nf : nat) (initP initF : list bool) (a : addr) : list nref * list nref :=
+  match a with
+  | AP i => if (i <? np)%nat && nth i initP false then ([P i], map F (seq 0 nf)) else unscoped np nf
+  | AF j => if (j <? nf)%nat && nth j initF false then ([F j], []) else unscoped np nf
+  | ANone | AUnknown => unscoped np nf
+  end.
+
+Definition pick (prim fb : list node) (r : nref) : node :=
+  match r with P i => get prim i | F j => get fb j end.
+
+Definition scoped_nodes (prim fb : list node) (s : list nref * list nref) : list node * list node :=
+  (map (pick prim fb) (fst s), map (pick prim fb) (snd s)).
+
+(* A label of a call made through ClientForAddress(a): the inner case is over ALL configured nodes
+   (observed result named by configured node, observed status of every configured node). *)
+Record scase := mks { s_addr : addr; s_initP : list bool; s_initF : list bool; s_case : case }.
+
+Fixpoint pos (r : nref) (l : list nref) : option nat :=
+  match l with
+  | [] => None
+  | x :: t => if nref_eqb x r then Some 0%nat else option_map S (pos r t)
+  end.
+
+Definition retag (sp sf : list nref) (r : nref) : nref :=
+  match pos r sp with
+  | Some k => P k
+  | None => match pos r sf with Some k => F k | None => P (length sp) (* not a node of the scoped client *) end
+  end.
+
+Definition retag_res (sp sf : list nref) (r : result) : result :=
+  match r with
+  | ROk n a => ROk (retag sp sf n) a
+  | RSoft n a => RSoft (retag sp sf n) a
+  | RErr n e => RErr (retag sp sf n) e
+  | r => r
+  end.
+
+Definition stat_of (c : case) (r : nref) : nstat :=
+  match r with P i => nth i (o_sp c) NotCalled | F j => nth j (o_sf c) NotCalled end.
+
+(* the completing nodes by latency (evaluation only; [accepts] re-checks admissibility) *)
+Fixpoint insert_by (l : list node) (i : nat) (o : list nat) : list nat :=
+  match o with
+  | [] => [i]
+  | j :: r => if delay (get l i) <=? delay (get l j) then i :: o else j :: insert_by l i r
+  end.
+Definition canon_order (l : list node) : list nat :=
+  fold_right (insert_by l) [] (filter (fun i => negb (is_hang (out (get l i)))) (seq 0 (length l))).
+
+(* the label of the same call, seen as a call of the scoped client *)
+Definition scoped_case (sc : scase) : case :=
+  let c := s_case sc in
+  let s := scope (length (c_prim c)) (length (c_fb c)) (s_initP sc) (s_initF sc) (s_addr sc) in
+  let ns := scoped_nodes (c_prim c) (c_fb c) s in
+  mkc (c_style c) (fst ns) (snd ns) (canon_order (fst ns)) (canon_order (snd ns)) (c_tc c)
+      (retag_res (fst s) (snd s) (o_res c)) (o_time c)
+      (map (stat_of c) (fst s)) (map (stat_of c) (snd s)).
+
+Definition in_scope (s : list nref * list nref) (r : nref) : bool :=
+  existsb (nref_eqb r) (fst s) || existsb (nref_eqb r) (snd s).
+
+(* nodes that are not part of the scoped client are not called *)
+Definition outside_untouched (sc : scase) : bool :=
+  let c := s_case sc in
+  let s := scope (length (c_prim c)) (length (c_fb c)) (s_initP sc) (s_initF sc) (s_addr sc) in
+  forallb (fun r => in_scope s r || nstat_eqb NotCalled (stat_of c r))
+          (map P (seq 0 (length (c_prim c))) ++ map F (seq 0 (length (c_fb c)))).
+
+Definition check_scoped (sc : scase) : nat :=   (* 0 = fine, 1 = monitor fails, 2 = model rejects *)
+  let c' := scoped_case sc in
+  if monitor c' then (if accepts_any c' && outside_untouched sc then 0%nat else 2%nat) else 1%nat.
